@@ -15,6 +15,8 @@ for d in sorted(glob.glob("/verif/seeded/C*-*"), key=lambda p: (p.split("/")[-1]
         stren = mm.group(1) if mm else ""
     needs = m["needs_to_manifest"].replace("|", "\\|")
     how = {"caught": "caught", "missed": "MISSED, then caught", "correspondence": "correspondence only, then input"}[first]
+    if m.get("stays_correspondence"):
+        how = "correspondence only (stays so: no-failing-input-found)"
     if m.get("neutralised_by"):
         how += "; NEUTRALISED by /repo %s (no longer breaks the property, check quiet)" % m["neutralised_by"]
         stren = stren.split(" || ")[0]
